@@ -2,6 +2,7 @@
 from .. import enginecamp as ec
 from .. import framework as fw
 from .. import imagegen as ig
+from . import c07
 
 ENGINES = ('featured', 'fast', 'native')
 
@@ -11,14 +12,17 @@ def gen_cases(ctx, n):
     cases = []
     while len(cases) < n:
         r = rng.random()
-        if r < 0.8:
+        directed = None
+        if r < 0.25:
+            w, segs, tags, directed = ig.directed_native_case(rng)
+        elif r < 0.8:
             w, segs, tags = ig.gen_image(rng)
         else:
             w = rng.choice([8, 16, 32, 64])
             w, segs, tags = ig.chain_program(rng, w, rng.choice([4, 8, 16, 40]))
         inp = bytes(rng.randrange(256) for _ in range(rng.choice([0, 0, 1, 1, 2, 3])))
         cases.append({'w': w, 'segs': segs, 'input': inp.hex(), 'version': rng.choice([0, 1, 2, 3]),
-                      'watchdog': 4.0, 'tags': tags})
+                      'watchdog': 4.0, 'tags': tags, 'directed': directed})
     return cases
 
 
@@ -31,6 +35,11 @@ def run(ctx):
         for e in ENGINES:
             d = dict(c)
             d['engine'] = e
+            if e == 'native':
+                # the native engine has several run loops: pick the storage / ring / measurement knobs at random
+                d.update(c.get('directed') or (c07.knobs(ctx.rng, c['w']) if ctx.rng.random() < 0.6 else {}))
+            elif ctx.rng.random() < 0.2:
+                d['last_ops'] = ctx.rng.choice([0, 2, 5])
             cases.append(d)
     results = ec.run_engines(ctx, cases, so)
     for c, r in zip(cases, results):
